@@ -8,6 +8,13 @@ BASE = json.load(open("/root/.vp/BASELINE.json"))
 
 # pid -> (technique, level text, level note, design ref)
 CLAIMED = {
+    "C11": ("TLA+ MC_Levels.tla (TLC ProductIsNextModule on a two-enzyme small world) + Trace_Assembly.tla NextLevel clauses validated by TLC on the eight kit triples",
+            "The closed-form product of a kit-shaped vector is decomposed by the next-level enzyme in the specification (all rotations, TLC); for the eight (vector, module, next-level) triples of the kits real assemblies are run, the product typed by the next-level class at random rotations, assembled again at the next level, and two-level chains built; TLC decomposes each product from sites and cuts and checks acceptance, fragments and that the target contains the inserts.",
+            "'The whole insert' of a module that itself embeds the next-level sites (YTKProduct) is read as the stretch between those cuts (DESIGN 5).", "6/C11"),
+    "C20": ("TLA+ Registry.tla: TLC over all addition histories of a combined registry + every history replayed on a real CombinedRegistry + TLC validation of complete observations of real registries",
+            "Union/first-wins/keys-once are invariants of the specification's Add machine (TLC, incl. nested and repeated members); each enumerated history is executed on a real CombinedRegistry; the five embedded registries (362 items, exhaustive), their combinations and generated directories are observed completely and judged by the trace specification.",
+            "GenBank parsing / resistance inference are exercised, not modelled.", "6/C20"),
+
     "C01": ("TLA+ AssemblyDNA.tla/Restriction.tla: TLC ImplProduct = Formula on all rotations/orders of small worlds + TLC validation of assembly traces against the closed form computed from sites and cuts",
             "The documented closed form of the product is a TLA+ operator over the canonic decompositions; TLC proves the implementation-shaped computation equal to it on every rotation and argument order of small worlds and recomputes it for every real assembly (26 real + 5 synthetic geometries, chains 1-5, random rotations, shuffled arguments), comparing as circles.",
             "Oracle uses neither the structure regex nor elucidate(); sampled inputs beyond the small worlds.", "6/C01"),
